@@ -386,7 +386,9 @@ pub fn expected_units(p: &Program) -> Vec<XUnit> {
                         }
                     }
                 } else {
-                    out.push(XUnit::Set { cols: cols.clone(), rows: rows.iter().map(|r| r.cells.clone()).collect(), err });
+                    // (a row without cells in a resultset with columns is one the shim gave up before
+                    // writing anything - see gens::gen_row: it is not part of the response)
+                    out.push(XUnit::Set { cols: cols.clone(), rows: rows.iter().filter(|r| !r.cells.is_empty()).map(|r| r.cells.clone()).collect(), err });
                 }
             }
         }
